@@ -33,7 +33,14 @@ for d in sorted(glob.glob('/verif/seeded/C*-*')):
         "caught_by": caught,
     }
     json.dump(meta, open(d + '/meta.json', 'w'), indent=1)
-    rows.append((name, am.get("summary", "")[:150].replace('|', '/'), ' '.join(caught) or '**missed**', 'yes' if ok else 'NO'))
+    note = open(d + '/note.txt').read().strip() if os.path.exists(d + '/note.txt') else ''
+    if note:
+        meta["note"] = note
+        json.dump(meta, open(d + '/meta.json', 'w'), indent=1)
+    col = ' '.join(caught) or ('not reported' if note else '**missed**')
+    if note:
+        col += ' (' + note.replace('|', '/') + ')'
+    rows.append((name, am.get("summary", "")[:150].replace('|', '/'), col, 'yes' if ok else 'NO'))
 print('| seeded change | what it does | caught by (quick tier) | confirmed |')
 print('|---|---|---|---|')
 for r in rows: print('| %s | %s | %s | %s |' % r)
